@@ -91,6 +91,51 @@ Section WithCfg.
             | right; do 2 eexists; split; [reflexivity|split; [assumption|eassumption]] ].
   Qed.
 
+  (* ... the close deadline being the one of the Close the connection has sent (the state returned still says when) *)
+  Theorem regular_force_only_when_due_strong c : k_ready c = true ->
+    snd (regular cf app c) = SRaise SForce ->
+    (exists v, c_ping_timeout cf = Some v /\ v <> 0 /\ session_time c - k_last_pong c > v) \/
+    (exists v s, c_close_timeout cf = Some v /\ v <> 0 /\ k_sent_close_time (fst (regular cf app c)) = Some s /\ s + v <= session_time c).
+  Proof.
+    intros Hr. unfold regular, zpos. rewrite Hr. cbn [negb].
+    repeat t_one; unfold same_timers in *; cbn in *;
+      repeat match goal with H : _ /\ _ |- _ => destruct H end; intros Hst; try discriminate;
+      try (subst; repeat match goal with H : _ \/ _ |- _ => destruct H end; discriminate);
+      repeat match goal with
+             | H : Some _ = Some _ |- _ => inversion H; subst; clear H
+             | H : (_ =? 0) = false |- _ => apply Z.eqb_neq in H
+             | H : (_ >? _) = true |- _ => apply Z.gtb_lt in H
+             | H : (_ >=? _) = true |- _ => apply Z.geb_le in H
+             end;
+      try first [ left; eexists; split; [reflexivity|split; [assumption|lia]]
+            | right; do 2 eexists; split; [reflexivity|split; [assumption|split; [eassumption|assumption]]] ].
+  Qed.
+
+  (* the other direction: when _regular() lets the loop go on, no armed deadline has passed at this instant -- the close
+     timeout counted from the Close the connection has sent, the ping timeout from the last Pong *)
+  Theorem regular_ok_means_not_due c : k_ready c = true ->
+    snd (regular cf app c) = SOk ->
+    (forall v s, c_close_timeout cf = Some v -> v <> 0 -> k_sent_close_time (fst (regular cf app c)) = Some s -> session_time c < s + v) /\
+    (forall v, c_ping_timeout cf = Some v -> v <> 0 -> session_time c - k_last_pong c <= v).
+  Proof.
+    intros Hr. unfold regular, zpos. rewrite Hr. cbn [negb].
+    repeat t_one; unfold same_timers in *; cbn in *;
+      repeat match goal with H : _ /\ _ |- _ => destruct H end; intros Hst; try discriminate;
+      try (subst; repeat match goal with H : _ \/ _ |- _ => destruct H end; discriminate);
+      (split; [intros ? ? Hv Hn Hs|intros ? Hv Hn]);
+      repeat match goal with
+             | H : Some _ = Some _ |- _ => inversion H; subst; clear H
+             | H : None = Some _ |- _ => discriminate H
+             | H : Some _ = None |- _ => discriminate H
+             | H : (_ =? 0) = false |- _ => apply Z.eqb_neq in H
+             | H : (_ =? 0) = true |- _ => apply Z.eqb_eq in H
+             | H : (_ >? _) = true |- _ => apply Z.gtb_lt in H
+             | H : (_ >? _) = false |- _ => apply Z.gtb_ltb in H; apply Z.ltb_ge in H
+             | H : (_ >=? _) = true |- _ => apply Z.geb_le in H
+             | H : (_ >=? _) = false |- _ => rewrite Z.geb_leb in H; apply Z.leb_gt in H
+             end; try congruence; try lia.
+  Qed.
+
   (* before Ready no timer runs at all *)
   Theorem regular_before_ready c : k_ready c = false -> regular cf app c = (c, SOk).
   Proof. intros H. unfold regular. rewrite H. reflexivity. Qed.
